@@ -173,7 +173,25 @@ fn cmd_tp(_text: &[u8]) -> String {
                 let printed = hex(v.to_string().as_bytes());
                 #[cfg(not(feature = "t_display"))]
                 let printed = "skip".to_string();
-                format!("ok sorted={} order={} print={}", toml_dump(&v, true), toml_dump(&v, false), printed)
+                // the same content inserted in the opposite order must be the same table (==) in every configuration
+                fn rev(v: &toml::Value) -> toml::Value {
+                    match v {
+                        toml::Value::Table(t) => {
+                            let mut pairs: Vec<(String, toml::Value)> = t.iter().map(|(k, x)| (k.clone(), rev(x))).collect();
+                            pairs.reverse();
+                            let mut n = toml::Table::new();
+                            for (k, x) in pairs {
+                                n.insert(k, x);
+                            }
+                            toml::Value::Table(n)
+                        }
+                        toml::Value::Array(a) => toml::Value::Array(a.iter().map(rev).collect()),
+                        other => other.clone(),
+                    }
+                }
+                let r = rev(&v);
+                let eq = r == v && v == r && v == v.clone();
+                format!("ok sorted={} order={} print={} eq={}", toml_dump(&v, true), toml_dump(&v, false), printed, eq)
             }
             Err(_) => "err".into(),
         }
